@@ -16,6 +16,7 @@ import time
 VERIF = os.path.dirname(os.path.dirname(os.path.abspath(__file__)))
 KANI_TIMEOUT = int(os.environ.get("VERIF_KANI_TIMEOUT", "1500"))
 JOBS = int(os.environ.get("VERIF_KANI_JOBS", "10"))
+MEM_KB = int(os.environ.get("VERIF_KANI_MEM_KB", str(10 * 1024 * 1024)))
 
 
 def strip_verus_contracts(src):
@@ -139,9 +140,13 @@ def run_harnesses(harnesses, repo="/repo", jobs=None):
     if not harnesses:
         return []
     d = prepare(repo)
-    cmd = ["timeout", str(KANI_TIMEOUT), "cargo", "kani", "--output-format=terse", "-j", str(jobs or JOBS)]
+    inner = ["cargo", "kani", "--output-format=terse", "-j", str(jobs or JOBS)]
     for h in harnesses:
-        cmd += ["--harness", h]
+        inner += ["--harness", h]
+    # every process of the run (cbmc in particular) is capped in virtual memory: a harness that
+    # would need more is reported undecided (bounded stand-in unavailable), never an alarm, and can
+    # never starve the machine (one uncapped SAT instance reached 41 GB in this sandbox)
+    cmd = ["timeout", str(KANI_TIMEOUT), "bash", "-c", f"ulimit -v {MEM_KB}; exec " + " ".join(inner)]
     env = dict(os.environ, CARGO_NET_OFFLINE="true", CARGO_TARGET_DIR=os.path.join(VERIF, "build", "kani_target"))
     t0 = time.time()
     p = subprocess.run(cmd, cwd=d, capture_output=True, text=True, env=env)
